@@ -83,13 +83,20 @@ for cls, tag in (('OSMObjectBuilder', 'object'), ('ChangesetBuilder', 'changeset
             canaries=['canary:normal', 'canary:throw'], replay=('c03_hostile', lambda cex, o: ['user']),
             note='asserts of the library are proof obligations: the debug build must not abort, the release build must not truncate'))
 
+# ---- layer 4: XML element handlers keep the builder protocol (typestate)
+import specs.c03_xml as XMLSPEC
+PIPELINES += XMLSPEC.pipelines(('c03_xml', lambda cex, o: ['xml']))
+
 TRUSTED = ['expat, zlib, libbz2 internals']
 ASSUMPTIONS = ['input strings shorter than 100000 / 200000 bytes in the models (object-size bound; loop contracts make the proofs independent of it)']
-NOT_DECIDED = ['expat behaviour', 'XML element handlers (recorded finding F16: changeset <comment> without or with two <text>)', 'PBF tag strings with embedded NUL (recorded finding F6)',
+NOT_DECIDED = ['expat behaviour', 'attribute values inside the XML handlers (the lambdas are replaced by a havoc of their captures)', 'PBF tag strings with embedded NUL (recorded finding F6)',
                'traversal of delivered objects (layout invariant)', 'pipeline-level hangs (threads)', 'allocation failure']
 LEVEL_TEXT = ('Proof for the layers function contracts reach: (1) the text/binary scanning kernels - coordinate parser, OPL integer/string/escape/space/section scanners, UTF-8 decoder, PBF blob header size, '
               'o5m table lookup - are memory-safe on every NUL-terminated string or byte range of any length, throw only documented exceptions and terminate (loop contracts with decreases); these units '
               'are shared with C13, C14 and C02 and re-run here. (2) the object and changeset builders reject user names that do not fit with length_error for every length a parser can hand over - no assert '
-              'can fire, nothing is truncated.')
-LEVEL_NOTE = ('Trusted: CBMC, extraction rules, strlen and std::string models. Not decided: expat, zlib, libbz2, the XML element handlers (finding F16 recorded), embedded NUL bytes in PBF strings (finding F6 recorded), '
+              'can fire, nothing is truncated. (3) the XML element handlers (top_level_element, data_level_element, start_element with get_tag, end_element), extracted whole, keep the builder protocol '
+              'for every element sequence expat can deliver and for every read_types setting: a typestate invariant over the context stack and the eight builder pointers (the shapes of the OSM XML grammar) is '
+              'preserved by every handler; sub-builders are created only when no other one is open, destroyed before their parent, dereferenced only while they exist; commit happens with no builder open; '
+              'no changeset comment is left unfinished at any handler boundary or on any exception path, so no builder assert can fire when the parser is destroyed.')
+LEVEL_NOTE = ('Trusted: CBMC, extraction rules, strlen and std::string models. Assumed for layer 3: the typestate functions standing for unique_ptr<Builder> and the builder methods (their obligations are the asserts and the stack discipline of the builder classes), a 8-slot model of std::vector<context>, expat delivering matching end tags. Not decided: expat, zlib, libbz2, attribute values inside the XML handlers, embedded NUL bytes in PBF strings (finding F6 recorded), '
               'traversal of delivered objects, anything spanning threads.')
